@@ -55,6 +55,33 @@ def ext_payload(rng, impl, kind):
     raise KeyError(kind)
 
 
+_HARVESTED = None
+
+
+def harvested_client_extensions():
+    """(type, payload hex) of the extensions the repository tests parse on their own and a client hello may carry: every extension
+    class of the library (session ticket, key share, status request, padding, ...) is thereby met inside a hello, in front of
+    other extensions, not only alone"""
+    global _HARVESTED
+    if _HARVESTED is None:
+        from harness import sweep
+        from cryptoparser.tls.extension import TlsExtensionVariantClient
+        seen = {}
+        for cls, vs in sorted(sweep.library_vectors().items(), key=lambda kv: sweep.qualname(kv[0])):
+            name = sweep.qualname(cls)
+            if not name.startswith('cryptoparser.tls.extension.TlsExtension') or 'Server' in name or 'Variant' in name:
+                continue
+            for v in vs:
+                if len(v) >= 4 and int.from_bytes(v[2:4], 'big') == len(v) - 4:
+                    try:
+                        TlsExtensionVariantClient.parse_exact_size(v)
+                    except Exception:  # pylint: disable=broad-except
+                        continue
+                    seen.setdefault((int.from_bytes(v[:2], 'big'), v[4:].hex()), name)
+        _HARVESTED = sorted(seen)
+    return _HARVESTED
+
+
 def client_hello(rng, impl, scsv_at_end=True, no_dup=True, scsv=None):
     """fields of a client hello as the chenc command takes them, plus the list of extenc commands used"""
     suites = rnd_codes(rng, codes_of('TlsCipherSuiteFactory'), 2, rng.choice([1, 2, 5, 17, 40]))
@@ -83,6 +110,11 @@ def client_hello(rng, impl, scsv_at_end=True, no_dup=True, scsv=None):
         if t == 21:
             pl = '00' * rng.choice([0, 3, 10])
         exts.insert(rng.randrange(len(exts) + 1), '%d:%s' % (t, pl))
+    harvested = harvested_client_extensions()
+    for _ in range(rng.choice([0, 1, 1, 2]) if harvested else 0):
+        t, pl = rng.choice(harvested)
+        if all(not e.startswith('%d:' % t) for e in exts):
+            exts.insert(rng.randrange(len(exts) + 1), '%d:%s' % (t, pl))
     ver = rng.choice(codes_of('TlsVersionFactory'))
     rnd = framegen.rnd_bytes(rng, 32).hex()
     sid = framegen.rnd_bytes(rng, rng.choice([0, 0, 16, 32])).hex() or '-'
